@@ -15,6 +15,7 @@ import (
 	"os"
 	"os/exec"
 	"path/filepath"
+	"regexp"
 	"runtime"
 	"runtime/debug"
 	"sort"
@@ -36,6 +37,8 @@ type Config struct {
 	QuickDeadline    time.Duration
 	ThoroughDeadline time.Duration
 	MaxProcs         int
+	// WorkerArgs are extra command-line arguments (harness-specific flags) handed on to the worker processes.
+	WorkerArgs []string
 }
 
 // Violation is one failing case.
@@ -313,8 +316,9 @@ func replay(cfg *Config, tier string) int {
 	ctx := &Ctx{Tier: tier, nshards: 1, only: id}
 	cfg.Enumerate(ctx)
 	if ctx.Evals == 0 {
-		fmt.Printf("ENGINE-ERROR case %q not found in the enumeration of tier %s\n", id, tier)
-		return 2
+		// exit code 3: the replay file belongs to another part (harness) of a multi-part check; ./check moves on
+		fmt.Printf("NOT-IN-THIS-PART case %q not found in the enumeration of tier %s\n", id, tier)
+		return 3
 	}
 	if len(ctx.Viol) == 0 {
 		fmt.Printf("case %q: no violation on replay\n", id)
@@ -341,6 +345,7 @@ func runShard(cfg *Config, tier string, i, n int, deadline time.Time) shardResul
 	for attempt := 0; attempt < 200; attempt++ {
 		os.Remove(marker)
 		cmd := exec.Command(os.Args[0], "-tier", tier, "-shard", fmt.Sprintf("%d/%d", i, n), "-resume", fmt.Sprint(resume), "-inflight", marker)
+		cmd.Args = append(cmd.Args, cfg.WorkerArgs...)
 		cmd.Env = append(os.Environ(), fmt.Sprintf("VERIF_DEADLINE_UNIX=%d", deadline.Unix()), "GOMAXPROCS=2")
 		var stderr strings.Builder
 		cmd.Stderr = &limitedWriter{w: &stderr, n: 1 << 16}
@@ -441,6 +446,9 @@ func (l *limitedWriter) Write(p []byte) (int, error) {
 	return len(p), nil
 }
 
+// hexRe matches addresses in a panic value: they differ from run to run and must not become part of a violation key.
+var hexRe = regexp.MustCompile(`0x[0-9a-fA-F]+`)
+
 func fatalSite(stderr string) string {
 	lines := strings.Split(stderr, "\n")
 	first := ""
@@ -469,7 +477,7 @@ func fatalSite(stderr string) string {
 		if len(w) > 4 {
 			w = w[:4]
 		}
-		return strings.Join(w, "_") + "@" + site
+		return hexRe.ReplaceAllString(strings.Join(w, "_"), "0x?") + "@" + site
 	}
 	return site
 }
